@@ -321,6 +321,51 @@ def run(rep, ctx):
                     p1.check(not f.cfg.before(cb, ca), "order|%s<%s" % (a, b), short_loc(cb.get("l")),
                              "%s is never parsed after %s" % (a, b),
                              "%s can be parsed after %s: later source would not override" % (a, b))
+    # <name>_options is the fall-back for <exe>_options: it is parsed exactly when no <exe>_options variable was found
+    if len(src.get("exe_options", [])) == 1 and len(src.get("name_options", [])) == 1:
+        ce, cn = src["exe_options"][0], src["name_options"][0]
+        fe_ = set(norm_facts(f, ce, canon=True))
+        fn_ = norm_facts(f, cn, canon=True)
+        bools = {v["name"]: v for v in f.walk() if v["k"] == "VarDecl" and (v.get("ct") or v.get("t") or "") in ("bool", "_Bool") and v.get("name")}
+        flags_ = [(t, pol) for t, pol in fn_ if t in bools]
+        okfb, whyfb = True, "no path parses both"
+        if flags_:
+            for t, pol in flags_:
+                v = bools[t]
+                init = cv(kids(v)[0]) if kids(v) else None
+                wr = [n for n in f.walk() if n["k"] == "BinaryOperator" and n.get("op") == "=" and strip(kids(n)[0]).get("declId") == v["declId"]]
+                other = [n for n in f.walk() if n["k"] in ("CompoundAssignOperator", "UnaryOperator") and n.get("op") not in ("!",) and kids(n) and
+                         strip(kids(n)[0]).get("declId") == v["declId"]]
+                # the flag says "an <exe>_options variable was found": initialised to the opposite of the tested value, and
+                # switched exactly where <exe>_options is parsed
+                def switched(n):
+                    rhs = strip(kids(n)[1])
+                    if cv(rhs) is not None:
+                        return bool(cv(rhs)) != bool(pol) and set(norm_facts(f, n, canon=True)) == fe_
+                    # flag = helper(...): the helper call that parses <exe>_options, returning "found and parsed"
+                    hit = [(c_, o_) for a_, c_, r_, o_ in reached if a_["i"] == ce["i"] and o_ is not f]
+                    if rhs["i"] != ce["i"] or len(hit) != 1:
+                        return False
+                    c_, o_ = hit[0]
+                    rets_ = [r_ for r_ in o_.walk() if r_["k"] == "ReturnStmt" and kids(r_)]
+                    if not rets_ or any(cv(kids(r_)[0]) is None for r_ in rets_):
+                        return False
+                    for r_ in rets_:
+                        found = bool(cv(kids(r_)[0])) != bool(pol)
+                        if found and not o_.cfg.dominates(c_, r_):
+                            return False
+                        if not found and o_.cfg.before(c_, r_):
+                            return False
+                    return True
+                good = init is not None and bool(init) == bool(pol) and bool(wr) and not other and all(switched(n) for n in wr)
+                if not good:
+                    okfb = False
+                    whyfb = "the fall-back is guarded by `%s%s`, but `%s` is not switched exactly where <exe>_options is found and parsed" % ("" if pol else "!", t, t)
+        else:
+            okfb = not f.cfg.before(ce, cn) and not f.cfg.before(cn, ce)
+            whyfb = "both <exe>_options and <name>_options can be parsed in one run"
+        p1.check(okfb, "name-options-is-fallback", short_loc(cn.get("l")), "<name>_options is parsed exactly when no <exe>_options variable exists",
+                 "%s: a user's <name>_options is dropped (or both variables are applied)" % whyfb)
     flag_sets = [n for n in f.walk() if n["k"] == "CompoundAssignOperator" and n.get("op") == "|="
                  and "FROM_COMMAND_LINE" in render(n)]
     for n in flag_sets:
